@@ -211,6 +211,12 @@ Boolean RetrieveCodeFromChunkList(
         Found = False;
         for (pChunk = pCodeChunkList->Chunks;
              pChunk < pCodeChunkList->Chunks + pCodeChunkList->RealLen; pChunk++) {
+            /* an empty chunk (empty input file) holds no address; its 'last
+               address' Start + 0 - 1 would wrap around */
+
+            if (!pChunk->Length) {
+                continue;
+            }
             OverlapStart = max(pChunk->Start, Start);
             OverlapEnd   = min(pChunk->Start + pChunk->Length - 1, Start + Count - 1);
             if (OverlapStart <= OverlapEnd) {
